@@ -20,6 +20,11 @@ func register(prop string, enum func(tier string) int, gen func(rng *verifsim.RN
 		Gen: func(rng *verifsim.RNG, idx int, tier string) any {
 			p := gen(rng, idx, tier)
 			p.Prop = prop
+			// Half of the plans also perturb the order in which goroutines that
+			// are runnable in the same instant proceed (see execPlan).
+			if rng.Bool(0.5) {
+				p.Sched = rng.U64() | 1
+			}
 			return p
 		},
 		Exec: func(t *testing.T, plan []byte, res *verifsim.Result) {
